@@ -26,6 +26,9 @@ def run(repo, run, tier):
     # equations were not solved must never be returned to integrate() (it would be committed, and FailedToMeetTolerances would never be raised)
     from .c02 import newton
     newton(repo, run, rule_id="C12.7")
+    # a right-hand side that starts returning nan/inf must end in the integration-failure error, not in recorded NaN rows
+    from .c05 import nan_rejection
+    nan_rejection(repo, run, rule_id="C12.8")
 
 
 def _hnames(h):
